@@ -392,6 +392,10 @@ func (e *Exec) regionTerm(st *State, region string, env *cenv) Term {
 	for _, p := range sp.Params {
 		v, ok := e.tryResolve(st, env, p.Name)
 		if !ok {
+			// a tracked ghost variable of the contract
+			v, ok = e.trackedGhost(st, p.Name)
+		}
+		if !ok {
 			e.fail(token.NoPos, "region %s: no input named %s", region, p.Name)
 		}
 		args = append(args, v)
